@@ -17,7 +17,10 @@ run(ctx)
          * the four (nopositive, nonegative) settings: positive-only / negative-only are of the
            requested sign, disjoint, and their union is the both-polarities catalogue; no peak flux
            is NaN or 0; (True, True) is empty;
-         * find_islands(im, bkg, rms) and find_islands(-im, -bkg, rms) return the same islands.
+         * find_islands(im, bkg, rms) and find_islands(-im, -bkg, rms) return the same islands;
+         * history: ONE SourceFinder instance asked the four settings in several orders on the same image (same file
+           names) answers each time what a fresh finder answers, and its answers satisfy the partition clause
+           (what='history-dependence' otherwise).
        Correspondence (kind 'corr'), real code vs the Lean model at Float
          * find_islands pixel sets vs `findIslands`;
          * for every island of both runs: the curvature map handed to estimate_lmfit_parinfo vs
@@ -346,9 +349,69 @@ def run_finder(ctx, case, negate=False, nopositive=False, nonegative=False, reco
         else:
             srcs = sf.find_sources_in_image(imf, rmsin=write_fits(ctx, f'rms_{tag}.fits', rms),
                                             bkgin=write_fits(ctx, f'bkg_{tag}.fits', bkg), **kw)
-    cat = [{f: float(getattr(s, f)) for f in FIELDS_SAME + FIELDS_NEG} |
-           dict(island=int(s.island), source=int(s.source), flags=int(s.flags)) for s in srcs]
-    return cat, rec, sf
+    return to_cat(srcs), rec, sf
+
+
+def to_cat(srcs):
+    return [{f: float(getattr(s, f)) for f in FIELDS_SAME + FIELDS_NEG} |
+            dict(island=int(s.island), source=int(s.source), flags=int(s.flags)) for s in srcs]
+
+
+# the orders in which the four (nopositive, nonegative) settings are asked of ONE SourceFinder instance
+HISTORIES = [
+    [(False, True), (True, False), (False, False), (True, True)],     # pos-only -> neg-only -> both -> none
+    [(False, False), (False, True), (True, False)],                    # both -> pos-only -> neg-only
+    [(True, False), (False, False), (False, True)],                    # neg-only -> both -> pos-only
+    [(True, True), (False, False), (True, False), (False, True)],     # none -> both -> neg-only -> pos-only
+    [(False, True), (False, False)],                                   # pos-only -> both
+    [(True, False), (False, True), (False, False)],                    # neg-only -> pos-only -> both
+]
+
+
+def history_case(ctx, case, fresh, order, negate=False):
+    """a long-lived process: ONE SourceFinder instance is asked for the same image (same file names, unchanged content)
+    with the (nopositive, nonegative) settings in `order`; every answer must be the catalogue a fresh finder gives for that
+    setting (`fresh[(np, nn)]`), and the answers must satisfy the partition clause among themselves.
+    (A reused finder keeps its loaded image: load_globals returns early when an image is loaded — documented behaviour of
+    the clean tree — so only the SAME image is ever handed to it here.)"""
+    sfm, _ = _mods()
+    im, bkg, rms = build_case(case)
+    if negate:
+        im, bkg = -im, -bkg
+    sf = sfm.SourceFinder(log=_quiet)
+    imf = write_fits(ctx, 'im_h.fits', im)
+    if case['mode'] == 'forced':
+        extra = dict(rms=float(rms[0, 0]), bkg=float(bkg[0, 0]))
+    else:
+        extra = dict(rmsin=write_fits(ctx, 'rms_h.fits', rms), bkgin=write_fits(ctx, 'bkg_h.fits', bkg))
+    got = {}
+    ok = True
+    hist = []
+    for np_, nn_ in order:
+        with warnings.catch_warnings():
+            warnings.simplefilter('ignore')
+            srcs = sf.find_sources_in_image(imf, cores=1, innerclip=case.get('inner', 5), outerclip=case.get('outer', 4),
+                                            nopositive=np_, nonegative=nn_, max_summits=case.get('max_summits'), **extra)
+        cat = to_cat(srcs)
+        hist.append([np_, nn_])
+        got[(np_, nn_)] = cat
+        want = fresh[(np_, nn_)]
+        same = [key(c) for c in cat] == [key(c) for c in want] and all(
+            c['flags'] == w['flags'] and all(common.close(c[f], w[f], rel=1e-12) for f in FIELDS_SAME + FIELDS_NEG)
+            for c, w in zip(cat, want))
+        ctx.count('history-calls-on-a-reused-finder')
+        if not same:
+            ok = False
+            ctx.fail('spec', dict(case, history=hist, image='negative' if negate else 'image'),
+                     f"a reused SourceFinder, asked (nopositive, nonegative) = {hist} in this order on the same image, returns "
+                     f"{len(cat)} components for the last setting (peak fluxes {[round(c['peak_flux'], 3) for c in cat][:8]}); a fresh "
+                     f"finder returns {len(want)} ({[round(c['peak_flux'], 3) for c in want][:8]})",
+                     dict(what='history-dependence', site='SourceFinder.find_sources_in_image', option='nopositive/nonegative'))
+            break
+    if ok and all(k in got for k in [(False, False), (False, True), (True, False)]):
+        ok = check_partition(ctx, dict(case, history=hist), got[(False, False)], got[(False, True)], got[(True, False)],
+                             got.get((True, True), []), 'reused-finder')
+    return ok
 
 
 # ---------------------------------------------------------------- Spec checks ----------------------------
@@ -714,6 +777,9 @@ def judge(ctx, todo, outs):
 
 # ---------------------------------------------------------------- the cases -------------------------------
 
+HIST_COUNTER = [0]
+
+
 def image_case(ctx, case, lines, todo, stats, full_polarity):
     """all runs for one image case; Spec checks immediately, correspondence lines queued"""
     cat_a, rec_a, sf_a = run_finder(ctx, case, record=True, tag='a')
@@ -725,6 +791,9 @@ def image_case(ctx, case, lines, todo, stats, full_polarity):
         neg, _, _ = run_finder(ctx, case, negate=negate, nopositive=True, tag='n')
         none, _, _ = run_finder(ctx, case, negate=negate, nopositive=True, nonegative=True, tag='z')
         ok = check_partition(ctx, case, both, pos, neg, none, which) and ok
+        fresh = {(False, False): both, (False, True): pos, (True, False): neg, (True, True): none}
+        HIST_COUNTER[0] += 1
+        ok = history_case(ctx, case, fresh, HISTORIES[HIST_COUNTER[0] % len(HISTORIES)], negate=negate) and ok
         fluxes = [c['peak_flux'] for c in both]
         for (np_, nn_, cat) in [(0, 0, both), (0, 1, pos), (1, 0, neg), (1, 1, none)]:
             idx = {key(c): i for i, c in enumerate(both)}
@@ -941,6 +1010,7 @@ def finish_stats(ctx, stats):
 
 def run(ctx):
     _mods()
+    HIST_COUNTER[0] = ctx.seed
     lines, todo = [], []
     stats = new_stats()
     if ctx.driver_ok:
@@ -996,7 +1066,7 @@ def replay(ctx, rec):
     if not rec.get('case'):
         ctx.note("this replay records a failed proof obligation / build, not an input: " + str(rec.get('detail'))[:400])
         return run(ctx)
-    case = {k: v for k, v in rec['case'].items() if k not in ('island', 'image', 'negated', 'nopositive', 'nonegative')}
+    case = {k: v for k, v in rec['case'].items() if k not in ('island', 'image', 'negated', 'nopositive', 'nonegative', 'history')}
     lines, todo = [], []
     stats = new_stats()
     if case.get('kind') == 'image':
